@@ -1127,6 +1127,42 @@ func c08R13(p *Prog, r *Report) {
 			return okp && root == recv && path == "."+fld
 		}, WantNonNil)...)
 	}
+	// ... or of a local flag whose only definition is such a comparison (loaded := s.m != nil)
+	for _, v := range fc.G.V {
+		if v.Kind != VCond {
+			continue
+		}
+		o := objOf(info, v.Node.(ast.Expr))
+		if o == nil {
+			continue
+		}
+		rhs, _, _, sole := fc.SoleDefRHS(o)
+		if !sole {
+			continue
+		}
+		be, isBin := ast.Unparen(rhs).(*ast.BinaryExpr)
+		if !isBin || (be.Op != token.NEQ && be.Op != token.EQL) {
+			continue
+		}
+		var side ast.Expr
+		if isNilExpr(info, be.Y) {
+			side = be.X
+		} else if isNilExpr(info, be.X) {
+			side = be.Y
+		}
+		if side == nil {
+			continue
+		}
+		root, path, okp := pathOf(info, side)
+		if !okp || root != recv || !mapFields[strings.TrimPrefix(path, ".")] {
+			continue
+		}
+		for _, e := range v.Succs {
+			if (be.Op == token.NEQ && e.Label == LTrue) || (be.Op == token.EQL && e.Label == LFalse) {
+				nonNil = append(nonNil, e)
+			}
+		}
+	}
 	stores := map[string][]int{}
 	for _, v := range fc.G.V {
 		as, ok := v.Node.(*ast.AssignStmt)
